@@ -134,8 +134,8 @@ def lemmas(tier):
         else:
           _lemma(results, 'L5 blocking drain sleeps no longer than deficit / rate', asm, z3.And(*goals), witness_of=any_sleep)
           _lemma(results, 'L5b blocking drain always grants', asm, g)
-    _kstep(results, 3 if tier == 'quick' else 5, 60000 if tier == 'quick' else 300000, False)
-    _kstep(results, 2 if tier == 'quick' else 4, 60000 if tier == 'quick' else 300000, True)
+    _kstep(results, 3 if tier == 'quick' else 4, 60000 if tier == 'quick' else 300000, False)
+    _kstep(results, 2 if tier == 'quick' else 3, 60000 if tier == 'quick' else 300000, True)
   except Unsupported as e:
     results.append(dict(name='translation', verdict='unknown', detail='unsupported construct: %s' % e, queries=0))
   return results
